@@ -381,8 +381,12 @@ package q
 //@   ghost isList bool = false
 //@   ghost ln int = 0
 //@   oncall reflect.Value.Kind do isList = result == 23
+//@   oncall reflect.Value.Len check only-a-list-is-measured: isList
 //@   oncall reflect.Value.Len do ln = result
 //@   ensures length: isnil(result1) && tag(result0) != 0
+// the length of a list, and 1 for EVERY other kind of input (documented: an
+// object, a map, a string, a number all count as one thing)
+//@   ensures length-of-a-list-else-one: data(result0) == ite(isList, ln, 1)
 //@ func OnlyExpr.Evaluate
 //@   props C16
 //@   requires len(args) != 1 || args[0] != nil
